@@ -18,6 +18,7 @@ import (
 	"sort"
 	"strings"
 
+	"github.com/VKCOM/statshouse/internal/data_model"
 	"github.com/VKCOM/statshouse/internal/data_model/gen2/tlmetadata"
 	"github.com/VKCOM/statshouse/internal/format"
 	mj "github.com/VKCOM/statshouse/internal/metajournal"
@@ -283,6 +284,10 @@ type world struct {
 	kinds   map[string]bool
 	truncM  bool // node 1 lost data in a reload
 	big     bool
+	bigLen  int   // length of the long description
+	bigID   int64 // when non-zero only this metric gets the long description
+	progressFail []string
+	convFail     [][2]string
 	broken  bool // this history may contain payloads the converters refuse (outside the property's premise)
 }
 
@@ -335,9 +340,9 @@ func (w *world) edit(typ int32, id int64, name string, t tok, code string) {
 	}
 	w.ver += int64(1 + w.r.Intn(3))
 	e := tlmetadata.Event{Id: id, Name: name, EventType: typ, Version: w.ver, UpdateTime: uint32(w.r.Intn(3)), Data: mkData(typ, t)}
-	if w.big && typ == format.MetricEvent && !t.broken && t.desc == 2 {
-		// a huge description: journals of several chunks
-		e.Data = fmt.Sprintf(`{"description":%q}`, strings.Repeat("x", 300000))
+	if w.big && typ == format.MetricEvent && !t.broken && t.desc == 2 && (w.bigID == 0 || w.bigID == id) {
+		// a huge description: journals of several chunks / one event above the response byte budget
+		e.Data = fmt.Sprintf(`{"description":%q}`, strings.Repeat("x", w.bigLen))
 		registry[fmt.Sprintf("%d|%s", typ, e.Data)] = tok{desc: 2, res: 0, disable: false}
 		t = tok{desc: 2}
 	}
@@ -362,7 +367,8 @@ func (w *world) edit(typ int32, id int64, name string, t tok, code string) {
 	if x.parsed {
 		x.okName, x.okVer, x.okDis, x.hasOK = name, w.ver, t.disable, true
 	}
-	// hashes of the four forms
+	// hashes of the four forms, sizes (as the diff's byte budget counts them) of the two payload forms
+	szs := []int64{int64(len(e.Name) + len(e.Data) + 60), 0}
 	hs := make([]int64, 4)
 	_, lo := mj.VerifEventHash(e)
 	hs[0] = int64(lo & 0xffffffff)
@@ -370,6 +376,7 @@ func (w *world) edit(typ int32, id int64, name string, t tok, code string) {
 	if keep || err != nil {
 		_, lo = mj.VerifEventHash(ce)
 		hs[1] = int64(lo & 0xffffffff)
+		szs[1] = int64(len(ce.Name) + len(ce.Data) + 60)
 		_, lo = mj.VerifEventHash(wire(ce))
 		hs[3] = int64(lo & 0xffffffff)
 	}
@@ -377,7 +384,7 @@ func (w *world) edit(typ int32, id int64, name string, t tok, code string) {
 	hs[2] = int64(lo & 0xffffffff)
 	n := w.nodes[0]
 	n.Apply([]tlmetadata.Event{e}, e.Version)
-	w.ops = append(w.ops, fmt.Sprintf("OEdit %s %s %s", evTerm(e), vu.ListZ(hs), obsTerm(n)))
+	w.ops = append(w.ops, fmt.Sprintf("OEdit %s %s %s %s", evTerm(e), vu.ListZ(hs), vu.ListZ(szs), obsTerm(n)))
 	w.text = append(w.text, fmt.Sprintf("%s%d:%s@%d", code, id, name, w.ver))
 }
 
@@ -502,14 +509,33 @@ func (w *world) randomEdit() {
 	}
 }
 
-func (w *world) deliver(to, maxItems, cut int) int {
+const unlimited = 1000000000000
+
+// maxItems < 0: the limits HandleGetMetrics3 really uses (getJournalDiffLocked3)
+func (w *world) deliver(to, maxItems, maxBytes, cut int) int {
 	up := w.nodes[0]
 	if to != 1 {
 		up = w.nodes[1]
 	}
 	n := w.nodes[to]
 	_, loader, _, _, _, _ := n.State()
-	evs, cur := up.Diff(loader, maxItems, math.MaxInt)
+	upCur, _, _, _, _, _ := up.State()
+	var evs []tlmetadata.Event
+	var cur int64
+	if maxItems < 0 {
+		evs, cur = up.DiffDefault(loader)
+		maxItems, maxBytes = data_model.MaxJournalItemsSent, data_model.MaxJournalBytesSent
+		w.kinds["default_limits"] = true
+	} else {
+		evs, cur = up.Diff(loader, maxItems, maxBytes)
+	}
+	if maxBytes < unlimited {
+		w.kinds["byte_limit"] = true
+	}
+	// progress: a replica positioned behind its upstream's version must be sent something
+	if loader < upCur && len(evs) == 0 {
+		w.progressFail = append(w.progressFail, fmt.Sprintf("to=%d from=%d upstream=%d maxItems=%d maxBytes=%d", to, loader, upCur, maxItems, maxBytes))
+	}
 	for i := range evs {
 		if to == 1 { // the source plays the metadata engine: its answer carries the events as stored
 			raw, ok := up.RawEntry(evs[i].EventType, evs[i].Id)
@@ -530,8 +556,8 @@ func (w *world) deliver(to, maxItems, cut int) int {
 	if isAmb {
 		w.kinds["ambiguous"] = true
 	}
-	w.ops = append(w.ops, fmt.Sprintf("ODeliver %d %d %d %s %s %s", to, maxItems, cut, amb, gord, obsTerm(n)))
-	w.text = append(w.text, fmt.Sprintf("d%d/%d/%d", to, maxItems, cut))
+	w.ops = append(w.ops, fmt.Sprintf("ODeliver %d %d %d %d %s %s %s", to, maxItems, maxBytes, cut, amb, gord, obsTerm(n)))
+	w.text = append(w.text, fmt.Sprintf("d%d/%d/%d/%d", to, maxItems, maxBytes, cut))
 	if len(evs) > 0 {
 		w.kinds["delivered"] = true
 	}
@@ -598,6 +624,12 @@ func longestGroup(groups []*ent, name string) (int32, int) {
 // ---------- oracles on the converged chain ----------
 func (w *world) oracles(o *vu.Out, line int, input string) {
 	nodes := w.nodes
+	for _, pf := range w.progressFail {
+		o.Fail("delivery_makes_progress", line, pf+" "+input)
+	}
+	for _, cf := range w.convFail {
+		o.Fail(cf[0], line, cf[1]+" "+input)
+	}
 	for k, n := range nodes {
 		evs, hi, lo := n.Entries()
 		_, _, _, shi, slo, _ := n.State()
@@ -844,10 +876,69 @@ func newWorld(r *vu.Rng, compact, big bool) *world {
 	return w
 }
 
+// after a truncated reload exactly at (and one byte around) every inner chunk boundary of the saved file the
+// node must ask again for what it lost: deliveries continue and the chain has to converge
+func (w *world) boundaryReloads(k int) {
+	w.reloadOnce(k, math.MaxInt)
+	bs := mj.VerifChunkBoundaries(w.nodes[k].File)
+	if len(bs) < 2 {
+		return
+	}
+	for _, b := range bs[:len(bs)-1] {
+		for _, d := range []int{0, -1, 1} {
+			w.reloadOnce(k, b+d)
+			w.kinds["boundary_cut"] = true
+			for i := 0; i < 50; i++ {
+				if w.deliver(k, -1, 0, math.MaxInt32) == 0 {
+					break
+				}
+			}
+			w.checkEqualsUpstream(k, fmt.Sprintf("after reload from a file cut at chunk boundary%+d (%d bytes) and redelivery", d, b+d))
+		}
+	}
+}
+
+// node k has been delivered to until its upstream's answer was empty: it must hold its upstream's entries
+// (histories with long descriptions are never compact, so this is plain equality / one RPC hop)
+func (w *world) checkEqualsUpstream(k int, what string) {
+	up := w.nodes[0]
+	if k != 1 {
+		up = w.nodes[1]
+	}
+	a, _, _ := w.nodes[k].Entries()
+	u, _, _ := up.Entries()
+	bad := len(a) != len(u)
+	for i := 0; !bad && i < len(a); i++ {
+		x := u[i]
+		if k != 1 {
+			x = wire(x)
+		}
+		bad = a[i] != x
+	}
+	_, _, _, ah, al, _ := w.nodes[k].State()
+	if k != 1 { // the other agent, when it is level with the same upstream, must have the same state hash
+		o := w.nodes[5-k]
+		oc, ol, _, oh, olo, _ := o.State()
+		uc, _, _, _, _, _ := up.State()
+		_ = oc
+		if ol >= uc && (oh != ah || olo != al) {
+			w.convFail = append(w.convFail, [2]string{"replicas_same_hash", fmt.Sprintf("node=%d %s", k, what)})
+		}
+	}
+	if bad {
+		name := "replica_has_source_latest"
+		if k != 1 {
+			name = "agent_has_upstream_latest"
+		}
+		w.convFail = append(w.convFail, [2]string{name, fmt.Sprintf("node=%d %s", k, what)})
+	}
+}
+
+// deliveries with the real default limits until every diff is empty
 func (w *world) syncAll() {
 	for _, to := range []int{1, 2, 3} {
 		for i := 0; i < 200; i++ {
-			if w.deliver(to, 1000, math.MaxInt32) == 0 {
+			if w.deliver(to, -1, 0, math.MaxInt32) == 0 {
 				break
 			}
 		}
@@ -856,14 +947,19 @@ func (w *world) syncAll() {
 
 func history(r *vu.Rng, o *vu.Out, idx int) {
 	compact := r.Chance(55)
-	big := idx%8 == 5 // journals of several chunks: a truncated file then yields a non-empty prefix
+	big := idx%8 == 5      // journals of several chunks: a truncated file then yields a non-empty prefix
+	oversize := idx%8 == 2 // one event larger than the default response byte budget
 	if big {
 		compact = false // compaction drops the long descriptions
 	}
-	w := newWorld(r, compact, big)
+	w := newWorld(r, compact, big || oversize)
+	w.bigLen = 300000
+	if oversize {
+		w.bigLen, w.bigID = data_model.MaxJournalBytesSent+30000, 30
+	}
 	w.broken = r.Chance(15)
 	nops := 10 + r.Intn(36)
-	if big {
+	if big || oversize {
 		nops = 8 + r.Intn(8)
 	}
 	input := ""
@@ -884,6 +980,18 @@ func history(r *vu.Rng, o *vu.Out, idx int) {
 		w.syncAll()
 		k := 1 + r.Intn(3)
 		w.reload(k, 300+r.Intn(700))
+		w.syncAll()
+		w.boundaryReloads(1 + r.Intn(3))
+	}
+	if oversize {
+		w.edit(format.MetricEvent, 30, "huge", tok{desc: 2}, "C")
+		for i := 0; i < 1+r.Intn(3); i++ {
+			w.randomEdit()
+		}
+		for _, to := range []int{1, 2, 3} {
+			w.deliver(to, -1, 0, math.MaxInt32)
+			w.deliver(to, -1, 0, math.MaxInt32)
+		}
 	}
 	for i := 0; i < nops; i++ {
 		switch x := r.Intn(100); {
@@ -893,7 +1001,12 @@ func history(r *vu.Rng, o *vu.Out, idx int) {
 			to := 1 + r.Intn(3)
 			maxItems := int(r.Pick(1, 2, 3, 1000, 1000))
 			cut := int(r.Pick(0, 1, 2, 3, math.MaxInt32, math.MaxInt32, math.MaxInt32))
-			w.deliver(to, maxItems, cut)
+			// byte budgets around the size of one event (63..115 bytes), below it, and of a few events
+			maxBytes := int(r.Pick(unlimited, unlimited, unlimited, unlimited, 1, 60, 62, 63, 64, 66, 70, 90, 130, 200, 400))
+			if r.Chance(12) {
+				maxItems = -1 // the real default limits
+			}
+			w.deliver(to, maxItems, maxBytes, cut)
 		default:
 			k := 1 + r.Intn(3)
 			frac := 1000
